@@ -356,6 +356,8 @@ func extractJpFacts(repo, out string) ([]string, error) {
 //     argument of the left and right operand in the infix default; Equation.infix; Equation.String
 //   - precedentCorrect: every if condition in source order, the precedence comparisons, the call-form clause, the rotation
 //   - reduceGroups: every statement, the precedence comparison; MustParseEquation: the statements
+//   - Expr.Append (jp/expr.go): the statements, the fragment loop (Bracket flag, second dot of a descent); the Append
+//     methods of Descent, Bracket, Wildcard, Child
 // Statement text is go/printer output (comments dropped), whitespace-normalised. Fails loudly when a function, a
 // switch, a clause or an expected statement shape is not found.
 
@@ -915,6 +917,57 @@ func extractJpParens(repo, out string) ([]string, error) {
 		def("`reduceGroups`: all statements", "reduceGroupsBody", "List String", jpxStrList(ef.stmts(fd.Body.List)))
 		def("`reduceGroups`: every if condition, in source order", "reduceGroupsConds", "List String", jpxStrList(jpxIfConds(ef.fset, fd.Body)))
 		def("`reduceGroups`: the precedence comparison", "reduceGroupsCmp", "Cmp", cm[0].lean())
+	}
+
+	// ---- Expr.Append (jp/expr.go) and the Append methods of Descent, Bracket, Wildcard, Child
+	{
+		xf, _, err := jpxParse(repo, "jp/expr.go")
+		if err != nil {
+			return nil, err
+		}
+		fd, err := xf.fn("Expr.Append")
+		if err != nil {
+			return nil, err
+		}
+		if jpxParams(xf.fset, fd.Type.Params) != "buf []byte, brackets ...bool" {
+			return nil, fmt.Errorf("jp/expr.go: Expr.Append: parameters are not (buf []byte, brackets ...bool)")
+		}
+		var loop *ast.RangeStmt
+		for _, s := range fd.Body.List {
+			if rs, ok := s.(*ast.RangeStmt); ok {
+				if loop != nil {
+					return nil, fmt.Errorf("jp/expr.go: Expr.Append: two range loops")
+				}
+				loop = rs
+			}
+		}
+		if loop == nil {
+			return nil, fmt.Errorf("jp/expr.go: Expr.Append: no range loop over the fragments")
+		}
+		head := "for " + jpxText(xf.fset, loop.Key)
+		if loop.Value != nil {
+			head += ", " + jpxText(xf.fset, loop.Value)
+		}
+		head += " " + loop.Tok.String() + " range " + jpxText(xf.fset, loop.X)
+		def("`Expr.Append` (jp/expr.go): the statements of the body (the loop as one statement)", "exprAppendBody", "List String", jpxStrList(xf.stmts(fd.Body.List)))
+		def("`Expr.Append`: the head of the fragment loop", "exprAppendLoopHead", "String", jpxStr(head))
+		def("`Expr.Append`: the statements of the fragment loop", "exprAppendLoop", "List String", jpxStrList(xf.stmts(loop.Body.List)))
+		for _, it := range []struct{ rel, fn, leanID string }{
+			{"jp/descent.go", "Descent.Append", "descentAppendBody"}, {"jp/bracket.go", "Bracket.Append", "bracketAppendBody"},
+			{"jp/wildcard.go", "Wildcard.Append", "wildcardAppendBody"}, {"jp/child.go", "Child.Append", "childAppendBody"}} {
+			jf, _, err := jpxParse(repo, it.rel)
+			if err != nil {
+				return nil, err
+			}
+			fd, err := jf.fn(it.fn)
+			if err != nil {
+				return nil, err
+			}
+			if jpxParams(jf.fset, fd.Type.Params) != "buf []byte, bracket, first bool" {
+				return nil, fmt.Errorf("%s: %s: parameters are not (buf []byte, bracket, first bool)", it.rel, it.fn)
+			}
+			def("`"+it.fn+"` ("+it.rel+"): the statements", it.leanID, "List String", jpxStrList(jf.stmts(fd.Body.List)))
+		}
 	}
 
 	b.WriteString("end OjgVerif.Gen.JpParens\n")
